@@ -1512,6 +1512,8 @@ def _mutable_value(v):
         return None
     if isinstance(v, (ast.List, ast.Dict, ast.Set, ast.ListComp, ast.DictComp, ast.SetComp)):
         return type(v).__name__.lower() + ' display'
+    if isinstance(v, ast.BinOp) and isinstance(v.op, (ast.BitOr, ast.BitAnd, ast.Sub, ast.Add)):
+        return _mutable_value(v.left) or _mutable_value(v.right)        # {..} | set(range(..)) builds a new set
     if isinstance(v, ast.Call):
         f = v.func
         name = f.id if isinstance(f, ast.Name) else f.attr if isinstance(f, ast.Attribute) else ''
